@@ -352,12 +352,23 @@ LookupResp(n, forceErr) ==
         THEN /\ call' = [k \in Callers |-> IF k \in lk[n].members THEN Nil ELSE call[k]]
              /\ out' = Event("lookupend", [name |-> n, res |-> "err", ver |-> 0, returned |-> lk[n].members, retry |-> {}, force |-> forceErr])
              /\ UNCHANGED <<m, handles, cache, hist>>
+        ELSE IF IsRec(m[n])
+        \* the name was installed meanwhile (this caller found it unknown, but reached the flight only after an earlier
+        \* flight for it had finished): the installed entry stays -- polls have been keeping it current and this answer
+        \* may be older -- nothing is installed or written, every member gets a handle on the installed entry
+        THEN /\ handles' = handles \cup {n}
+             /\ hist' = Served(n, a.v)
+             /\ call' = [k \in Callers |-> IF k \in lk[n].members THEN Nil ELSE call[k]]
+             /\ out' = Event("lookupend", [name |-> n, res |-> "val", ver |-> a.v, returned |-> lk[n].members, retry |-> {}, force |-> forceErr,
+                                           installed |-> FALSE])
+             /\ UNCHANGED <<m, cache>>
         ELSE /\ m' = [m EXCEPT ![n] = [ver |-> a.v, la |-> Sec(now), declared |-> FALSE]]
              /\ handles' = handles \cup {n}
              /\ cache' = Flush(m')
              /\ hist' = Installed(Served(n, a.v), n, a.v)
              /\ call' = [k \in Callers |-> IF k \in lk[n].members THEN Nil ELSE call[k]]
-             /\ out' = Event("lookupend", [name |-> n, res |-> "val", ver |-> a.v, returned |-> lk[n].members, retry |-> {}, force |-> forceErr])
+             /\ out' = Event("lookupend", [name |-> n, res |-> "val", ver |-> a.v, returned |-> lk[n].members, retry |-> {}, force |-> forceErr,
+                                           installed |-> TRUE])
   /\ UNCHANGED <<cfg, svc, phase, closed, ini, poll, now>>
 
 \* a caller whose own context has ended stops waiting at once, wherever it is; a flight it leads
